@@ -58,8 +58,10 @@ type Session struct {
 	Timeout time.Duration
 	// Rand supplies the randomness of the RSA schemes (default crypto/rand).
 	Rand io.Reader
-	// AsymOptions are applied to the OPN chunk this end builds.
+	// AsymOptions are applied to the OPN chunk this end builds, SymOptions to
+	// the MSG / CLO chunks.
 	AsymOptions AsymOptions
+	SymOptions  SymOptions
 }
 
 // NewClientSession returns a client end. serverCert may be nil for policy None.
@@ -314,7 +316,7 @@ func (s *Session) RecvKeys() *Keys {
 // frame.
 func (s *Session) SendMSG(msgType string, requestID, seq uint32, chunkType byte, body []byte) ([]byte, error) {
 	h := SymHeader{MessageType: msgType, ChunkType: chunkType, SecureChannelID: s.ChannelID, TokenID: s.TokenID, SequenceNumber: seq, RequestID: requestID}
-	f, err := BuildSymChunk(s.Policy, s.Mode, s.SendKeys(), h, body, SymOptions{})
+	f, err := BuildSymChunk(s.Policy, s.Mode, s.SendKeys(), h, body, s.SymOptions)
 	if err != nil {
 		return nil, err
 	}
